@@ -1,5 +1,6 @@
 SPECIFICATION NSpec
 CONSTANT Pairs <- NucPairs
 CONSTANT Instances <- NucInstances
+CONSTANT Refused <- NoRefused
 INVARIANT MappingUnambiguous
 INVARIANT SameProcess
